@@ -39,8 +39,8 @@ CHECKS = {
              text='the real NIST and radionuclide lookup units executed by CBMC over a small catalogue with symbolic contents: by-index / by-name / name-list agree, deep independent copies, error protocol, no leak; the shipped catalogues (180 compounds, 10 nuclides) are checked for well-formedness, unique names and index-macro/name agreement by direct evaluation of the constants',
              note='3 entries, names <= 3 bytes, <= 2 elements (functions have no size-dependent branch); memcpy/strdup/lfind are loop models (CBMC built-in memcpy is imprecise on interior sub-arrays); element-symbol bijection and crystal catalogue are covered under C07/C14'),
  'C14': dict(tech=A + '; one inductive step per operation from an arbitrary valid collection state', cat='model_checking',
-             text='Crystal_ArrayInit/AddCrystal (user and built-in collection)/GetCrystal/GetCrystalsList/MakeCopy/Free/ArrayFree of the real crystal_diffraction.c executed by CBMC from every array shape with capacity <= 2 and symbolic contents: invariant (sorted, counts, capacity) preserved on the object the caller holds, abstract content = old + new on success and unchanged on rejection, growth when full, built-in capacity enforced, independent copies, everything released by ArrayFree (memory-leak check)',
-             note='capacity <= 2 (12 after growth), names <= 2 bytes, <= 1 atom; typed bsearch/qsort/memcpy models with the real comparators; libm stand-ins; Crystal_ReadFile (file I/O) not encoded'),
+             text='Crystal_ArrayInit/AddCrystal (user and built-in collection)/GetCrystal/GetCrystalsList/MakeCopy/Free/ArrayFree/ReadFile of the real crystal_diffraction.c executed by CBMC from every array shape with capacity <= 2 and symbolic contents: invariant (sorted, counts, capacity) preserved on the object the caller holds, abstract content = old + new on success and unchanged on rejection, growth when full, built-in capacity enforced, independent copies, everything released by ArrayFree (memory-leak check)',
+             note='capacity <= 2 (12 after growth), names <= 2 bytes, <= 1 atom; typed bsearch/qsort/memcpy models with the real comparators; libm stand-ins; Crystal_ReadFile over a stream model: every file of <= 3 lines (10 line kinds) + the one-edit neighbourhood of the canonical file on 5 pre-states, consistency facts only (no file grammar)'),
  'C07': dict(tech=A + ' (scanner: one nesting level of the real CompoundParserSimple per string shape, nested calls replaced by a contract stub via goto-instrument --replace-calls; add_compound_data; symbol table) + ' + B + ' (CompoundParser assembly, locale, ownership)', cat='model_checking',
              text='(1) scanner: for every string shape of <= 3 characters (quick; <= 4 thorough) over the 9 character classes, one nesting level of the real scanner agrees with a reference grammar: accept/reject, strictly ascending element list, counts = algebraic expansion with nested group results scaled by their multiplier, text unmodified, exactly one error on rejection, no leak/double free/out-of-bounds; nesting depth by induction through the contract stub. (2) CompoundParser assembly for <= 3 elements: Elements/nAtoms copied, nAtomsAll, molarMass, massFractions, unweighable elements rejected, numeric locale restored, ownership. (3) add_compound_data for |A|,|B| <= 3: ascending union, wA*fA + wB*fB. (4) element symbol <-> Z bijection on the real table',
              note='scanner bounds: strings <= 3 (4) characters per level, <= 2 groups per level, nested results <= 2 elements, subscripts/counts on an exact grid (multilinear identities), characters are class representatives, strtod value and element table abstract per position; formulas longer than the bound and libc strtod/ctype themselves are outside the claim'),
